@@ -424,6 +424,10 @@ func (g *Gen) allocObject(h Heap, T types.Type, hint string) (string, Heap) {
 				continue
 			}
 			sub := g.subRef(T, f.Name(), r)
+			// the embedded object did not exist before this allocation either
+			g.S.assert(not(sel(g.hget(h, g.allocComp()), sub)))
+			h = h.clone()
+			h["ALLOC"] = store(g.hget(h, g.allocComp()), sub, "true")
 			for _, gv := range g.sortedGhosts() {
 				if g.scan {
 					break
